@@ -148,6 +148,30 @@ func (e *Env) tableLookup(v ssa.Value) (lk *ssa.Lookup, which int, field string,
 			}
 		}
 	}
+	// the looked-up row handed to a method or helper as a parameter (`rule.blocks(dep)`,
+	// `node.markBlocked(rule)`): the argument it is bound to, or - for a helper with a
+	// single call site - the argument of that call
+	for d := 0; d < 3; d++ {
+		pr, isP := v.(*ssa.Parameter)
+		if !isP {
+			break
+		}
+		if b := ir.Bound(pr); b != nil {
+			v = ir.Resolve(b)
+		} else if dv := ir.Deep(pr); dv != ssa.Value(pr) {
+			v = ir.Resolve(dv)
+		} else {
+			break
+		}
+		// the argument may itself be the local the row is kept in
+		if u, isU := v.(*ssa.UnOp); isU && u.Op == token.MUL {
+			if al, isA := u.X.(*ssa.Alloc); isA {
+				if st := ir.StoresTo(al); len(st) == 1 {
+					v = ir.Resolve(st[0])
+				}
+			}
+		}
+	}
 	if ex, isE := v.(*ssa.Extract); isE {
 		which = ex.Index
 		v = ex.Tuple
